@@ -2,7 +2,7 @@
 """C08 — annotations are inherited faithfully by the assembled plasmid (shared machinery with C09)."""
 EXTRA_OBLIGATION_FILES = ("Props/C08_src.v",)
 
-from harness import annot, common, gens, recutil
+from harness import srcrun, annot, common, gens, recutil
 from harness.props import C13
 
 LEVEL_NOTE = ("Theorems over Z coordinates for every record, rotation amount and feature shape: a feature whose image under "
@@ -216,11 +216,13 @@ def run_annot(case):
     ents = annot.build(case["elements"])
     q = case["q"]
     inputs = [recutil.dump_record(e.record) for e in ents]
+    src_inputs = [srcrun.dump_input(e) for e in ents]
     obs, prod = implutil.observe_assembly(ents[q], [ents[i] for i in case["order"]], id=case["id"], name=case["name"])
     if prod is None:
-        return {"obs": obs, "inputs": inputs}
+        return {"obs": obs, "inputs": inputs, "src_inputs": src_inputs, "src_obs": obs}
     view = annot.product_view(prod)
-    out = {"obs": {"out": "product"}, "inputs": inputs, "product": view, "violations": []}
+    out = {"obs": {"out": "product"}, "inputs": inputs, "product": view, "violations": [],
+           "src_inputs": src_inputs, "src_obs": obs, "src_product": srcrun.dump_product(prod)}
     V = out["violations"]
     pseq = view["seq"]
     V.extend(c08_oracle(case, inputs, view))
@@ -375,6 +377,28 @@ def run_common(ctx, prop, vkey):
         ctx.disagreements.append({"case": cases[i], "impl": res[i]["product"]["features"],
                                   "observable": "sequence and ordered feature table (type, label, strand, coordinates) of the product "
                                                 "vs AnnotPipeline.annot_product", "model_fn": "AnnotPipeline.annot_product"})
+    # the same calls through vector.assemble as regenerated from the source
+    terms, idx = [], []
+    for i, (c, r) in enumerate(zip(cases, res)):
+        if r.get("src_inputs") is None:
+            continue
+        q = c["q"]
+        try:
+            terms.append(srcrun.c_case(ctx, (c["elements"][q]["cls"], r["src_inputs"][q]),
+                                       [(c["elements"][k]["cls"], r["src_inputs"][k]) for k in c["order"]],
+                                       {"id": c["id"], "name": c["name"]}, r["src_obs"], r.get("src_product")))
+            idx.append(i)
+        except (KeyError, ValueError) as e:
+            ctx.count("src-run-skipped:" + str(e)[:40])
+    ctx.count("src-runs", len(terms))
+    bad = common.coq_eval_cases(ctx, "srcrun", srcrun.IMPORTS, terms, "src_run_check", per_file=40)
+    for b in bad:
+        i = idx[b]
+        ctx.disagreements.append({"case": cases[i], "impl": {"obs": res[i].get("src_obs"), "product": res[i].get("src_product")},
+                                  "observable": "vector.assemble as regenerated from the source (run_assemble): product record "
+                                                "(sequence, ids, ordered feature table, references, annotations, comment), unused "
+                                                "modules or exception class, inputs unchanged",
+                                  "model_fn": "Gen/Src.v run_assemble"})
 
 
 def run(ctx):
